@@ -41,15 +41,19 @@ inline expr expr_at(const std::vector<expr>& ea, const expr& eb, const Generator
 
 // Simple Boolean queries against R.  Requires the descriptions to have been checked
 // (the existential directions use the reported generators as witnesses).
-inline void check_bool_queries(const Polyhedron& ph, const RefSet& R, const std::string& tag) {
+struct Answers { bool empty, univ, bounded, closed; };
+// The Boolean queries, asked in the object's current lazy state (before any other observer).
+inline Answers grab_answers(const Polyhedron& ph) { Answers a; a.univ = ph.is_universe(); a.bounded = ph.is_bounded(); a.closed = ph.is_topologically_closed(); a.empty = ph.is_empty(); return a; }
+inline void check_bool_queries(const Polyhedron& ph, const RefSet& R, const std::string& tag, const Answers* pre = 0) {
   symrt::Batch B_;
   unsigned n = R.n;
+  Answers ans = pre ? *pre : grab_answers(ph);
   Generator_System gs = ph.generators();
-  bool empty = ph.is_empty();
+  bool empty = ans.empty;
   symrt::note(std::string("is_empty=") + (empty ? "1" : "0"));
   if (empty) { Point x = oracle::fresh_point(n); B_.add(!R.contains(x), tag + ": is_empty() but the set has a point"); }
   else symrt::require(oracle::has_point(gs), tag + ": !is_empty() but generators() has no point");
-  bool univ = ph.is_universe();
+  bool univ = ans.univ;
   if (univ) { Point x = oracle::fresh_point(n); B_.add(R.contains(x), tag + ": is_universe() but a point is missing"); }
   else {
     // some fed row must be violable
@@ -58,7 +62,7 @@ inline void check_bool_queries(const Polyhedron& ph, const RefSet& R, const std:
       viol = viol || nz || (r.kind == 0 ? r.b != rval(0) : r.kind == 1 ? r.b < rval(0) : r.b <= rval(0)); }
     B_.add(viol, tag + ": !is_universe() but the set is the whole space");
   }
-  bool bounded = ph.is_bounded();
+  bool bounded = ans.bounded;
   if (bounded) {
     if (!empty) { Point d = oracle::fresh_point(n, "d"); expr nz = bval(false); for (auto& e : d) nz = nz || e != rval(0);
       B_.add(!(nz && R.recedes(d)), tag + ": is_bounded() but the set has a recession direction"); }
@@ -68,7 +72,7 @@ inline void check_bool_queries(const Polyhedron& ph, const RefSet& R, const std:
     for (Generator_System::const_iterator g = gs.begin(); g != gs.end(); ++g) if (g->is_ray() || g->is_line()) has_dir = true;
     symrt::require(!empty && has_dir, tag + ": !is_bounded() but no ray or line reported");
   }
-  bool closed = ph.is_topologically_closed();
+  bool closed = ans.closed;
   if (closed) {
     if (!empty) { Point y = oracle::fresh_point(n); B_.add(!(R.closure_contains(y) && !R.contains(y)), tag + ": is_topologically_closed() but the set is not closed"); }
   }
